@@ -22,7 +22,8 @@
    last          what was last computed: which call, the stream rule in force, for which channel
    alias         the object keeps a reference to the dictionary the caller passed (deviation only)
 
-   Actions = public calls:  Construct, SetMetric(name, supplied args) - accepted or REJECTED
+   Actions = public calls:  Construct, SetAttr (assignment to the public attributes iPu / noise_var / pe of
+   the LIVE object; every later solve must obey the current values), SetMetric(name, supplied args) - accepted or REJECTED
    (AttributeError; the object must be unchanged) -, EditDict (the caller changes the dictionary it
    passed earlier), NewChannel, SolveBD(block_diagonalize | block_diagonalize_no_waterfilling | the
    module-level block_diagonalize), SolveExt (block_diagonalize_no_waterfilling(mu_channel) of
@@ -42,7 +43,9 @@
                                own Nt array
      ArgsNotResetOnMetricChange  extra arguments of the previous metric survive a metric change
      StaleStreamCounts         a solve reports the stream rule of the previous solve
-     SolveStoresDecision       a solve with a deciding metric turns the object into a fixed-stream one *)
+     SolveStoresDecision       a solve with a deciding metric turns the object into a fixed-stream one
+     PowerCachedAtConstruction the paths that divide the power equally (no water-filling, no stream
+                               reduction) use sqrt(iPu) computed in the constructor               *)
 EXTENDS Integers, Sequences, FiniteSets, TLC, Emit
 
 CONSTANTS Classes,     \* subset of {"BD", "WBD", "EBD"}
@@ -72,9 +75,10 @@ ExtPowerVal == [zero |-> <<0, 1>>, lo |-> <<1, 2>>, hi |-> <<8, 1>>, na |-> <<0,
 MetricNames == {"None", "naive", "fixed", "capacity", "effective_throughput"}
 NoMetric == [name |-> "None", ns |-> 0, mod |-> "none", plen |-> 0]
 NoArgs   == [ns |-> 0, mod |-> "none", plen |-> 0]
-NoObj    == [cls |-> "none", K |-> 0, p |-> "na", nv |-> "na", pe |-> "na"]
+NoObj    == [cls |-> "none", K |-> 0, p |-> "na", nv |-> "na", pe |-> "na", p0 |-> "na"]
 NoChan   == [N |-> 0, rE |-> 0, intact |-> TRUE]
-NoLast   == [op |-> "none", kind |-> "none", n |-> 0, mname |-> "None", N |-> 0, rE |-> 0, filt |-> FALSE, onCur |-> FALSE]
+NoLast   == [op |-> "none", kind |-> "none", n |-> 0, mname |-> "None", N |-> 0, rE |-> 0, filt |-> FALSE, onCur |-> FALSE,
+             pe |-> "na", cur |-> TRUE]
 
 BDops  == {"bd_wf", "bd_nowf", "mod_bd_wf"}
 ExtOps == {"wbd", "ebd"}
@@ -88,11 +92,25 @@ Init == /\ obj = NoObj /\ metric = NoMetric /\ alias = FALSE /\ chan = NoChan /\
 Step(op, a, out) == ret' = [op |-> op, a |-> a, out |-> out]
 
 (* ---------------------------------- construction ---------------------------------------------- *)
+\* the exact values of the public attributes iPu, noise_var, pe of an object (carried by every call that uses them)
+CfgVals(o) == [p |-> PowerVal[o.p], nv |-> NoiseVal[o.nv], pe |-> ExtPowerVal[o.pe]]
 Construct(c) ==
   /\ "Construct" \in Acts /\ obj = NoObj
-  /\ obj' = c
+  \* p0: the power given at construction (remembered only to express the deviation PowerCachedAtConstruction)
+  /\ obj' = [cls |-> c.cls, K |-> c.K, p |-> c.p, nv |-> c.nv, pe |-> c.pe, p0 |-> IF Dev.PowerCachedAtConstruction THEN c.p ELSE "na"]
   /\ UNCHANGED <<metric, alias, chan, last>>
   /\ Step("Construct", [cls |-> c.cls, K |-> c.K, p |-> PowerVal[c.p], nv |-> NoiseVal[c.nv], pe |-> ExtPowerVal[c.pe]], "ok")
+
+\* iPu, noise_var and pe are plain public attributes: a user assigns them on the LIVE object between solves (power
+\* sweeps).  Every later solve must obey the current values.
+SetAttr(attr, lab) ==
+  /\ "SetAttr" \in Acts /\ ~Sweep /\ obj # NoObj
+  /\ attr = "pe" => obj.cls # "BD"
+  /\ obj' = CASE attr = "iPu"       -> [obj EXCEPT !.p = lab]
+               [] attr = "noise_var" -> [obj EXCEPT !.nv = lab]
+               [] OTHER              -> [obj EXCEPT !.pe = lab]
+  /\ UNCHANGED <<metric, alias, chan, last>>
+  /\ Step("SetAttr", [attr |-> attr, value |-> CASE attr = "iPu" -> PowerVal[lab] [] attr = "noise_var" -> NoiseVal[lab] [] OTHER -> ExtPowerVal[lab]], "ok")
 
 (* ---------------------------------- set_ext_int_handling_metric ------------------------------- *)
 \* what set_ext_int_handling_metric requires / stores.  a = the supplied dictionary (absent key: 0 / "none")
@@ -164,14 +182,17 @@ NewChannel(N, rE) ==
 (* ---------------------------------- solves ------------------------------------------------------ *)
 \* block_diagonalize(H) (every class inherits it), block_diagonalize_no_waterfilling(H) of the plain class,
 \* and the module-level block_diagonalize(H, K, iPu, noise_var)
-BDResult(op, c) == [op |-> op, kind |-> "all", n |-> c.N, mname |-> "None", N |-> c.N, rE |-> c.rE, filt |-> FALSE, onCur |-> TRUE]
+BDResult(op, c) == [op |-> op, kind |-> "all", n |-> c.N, mname |-> "None", N |-> c.N, rE |-> c.rE, filt |-> FALSE, onCur |-> TRUE,
+                    pe |-> "na", cur |-> TRUE]
+\* deviation: the paths that divide the power equally use the amplitude computed at construction
+CachedPowerStale(o) == Dev.PowerCachedAtConstruction /\ o.p0 # o.p
 SolveBD(op) ==
   /\ "SolveBD" \in Acts /\ obj # NoObj /\ chan.N > 0
   /\ op = "bd_nowf" => obj.cls = "BD"
   /\ Sweep => (last = NoLast /\ metric = NoMetric)   \* (the interplay with the metric is in the history machine)
-  /\ last' = BDResult(op, chan)
+  /\ last' = [BDResult(op, chan) EXCEPT !.cur = ~(op = "bd_nowf" /\ CachedPowerStale(obj))]
   /\ UNCHANGED <<obj, metric, alias, chan>>
-  /\ Step("SolveBD", [op |-> op], "ok")
+  /\ Step("SolveBD", [op |-> op, cfg |-> CfgVals(obj)], "ok")
 
 \* the stream rule a solve with this metric on N antennas must follow
 RuleOf(m, N) ==
@@ -185,7 +206,7 @@ ExtResult(o, m, c) ==
   LET mm == IF o.cls = "WBD" THEN NoMetric ELSE m
       r == RuleOf(mm, c.N)
   IN [op |-> IF o.cls = "WBD" THEN "wbd" ELSE "ebd", kind |-> r.kind, n |-> r.n, mname |-> mm.name,
-      N |-> c.N, rE |-> c.rE, filt |-> TRUE, onCur |-> TRUE]
+      N |-> c.N, rE |-> c.rE, filt |-> TRUE, onCur |-> TRUE, pe |-> o.pe, cur |-> TRUE]
 ExtEnabled(o, m, c) == o.cls \in {"WBD", "EBD"} /\ c.N > 0 /\ c.rE > 0
                        /\ m.ns <= c.N           \* num_streams beyond the antennas is outside the quantifier
 
@@ -194,19 +215,20 @@ SolveExt ==
   /\ Sweep => last = NoLast
   /\ LET good == ExtResult(obj, metric, chan)
          stale == Dev.StaleStreamCounts /\ last.op \in ExtOps /\ last.n <= chan.N
-     IN /\ last' = IF stale THEN [good EXCEPT !.kind = last.kind, !.n = IF last.kind = "all" THEN chan.N ELSE last.n] ELSE good
+         res == IF stale THEN [good EXCEPT !.kind = last.kind, !.n = IF last.kind = "all" THEN chan.N ELSE last.n] ELSE good
+     IN /\ last' = [res EXCEPT !.cur = ~(res.kind = "all" /\ CachedPowerStale(obj))]
         /\ metric' = IF Dev.SolveStoresDecision /\ good.kind = "decided" THEN [NoMetric EXCEPT !.name = "fixed", !.ns = 1] ELSE metric
   /\ UNCHANGED <<obj, alias, chan>>
-  /\ Step("SolveExt", <<>>, "ok")
+  /\ Step("SolveExt", [cfg |-> CfgVals(obj)], "ok")
 
 \* calc_whitening_matrices(mu_channel) of the classes that handle external interference
-WhitenResult(c) == [NoLast EXCEPT !.op = "whiten", !.N = c.N, !.rE = c.rE, !.onCur = TRUE]
+WhitenResult(c) == [NoLast EXCEPT !.op = "whiten", !.N = c.N, !.rE = c.rE, !.onCur = TRUE]   \* (uses pe of the object, noise of the channel)
 CalcWhitening ==
   /\ "CalcWhitening" \in Acts /\ obj.cls \in {"WBD", "EBD"} /\ chan.N > 0 /\ chan.rE > 0
   /\ Sweep => (last = NoLast /\ metric = NoMetric)
   /\ last' = WhitenResult(chan)
   /\ UNCHANGED <<obj, metric, alias, chan>>
-  /\ Step("CalcWhitening", <<>>, "ok")
+  /\ Step("CalcWhitening", [cfg |-> CfgVals(obj)], "ok")
 
 \* calc_receive_filter(newH) on the effective channel returned by the last plain solve
 CalcReceiveFilter(how) ==
@@ -229,31 +251,35 @@ DoConstruct == \E c \in Configs : Construct(c)
 DoSetMetric == obj.cls = "EBD" /\ \E name \in MetricNames \cup {"lala"} : \E a \in Supplied(name) : SetMetric(name, a)
 DoNewChannel == obj # NoObj /\ \E N \in Ants : \E rE \in Ranks \cup {0} : NewChannel(N, rE)
 DoSolveBD == \E op \in BDops : SolveBD(op)
+DoSetAttr == /\ obj # NoObj /\ ~Sweep
+             /\ \/ \E lab \in PLabels : SetAttr("iPu", lab)
+                \/ \E lab \in NvLabels : SetAttr("noise_var", lab)
+                \/ \E lab \in PeLabels : SetAttr("pe", lab)
 DoCalcReceiveFilter == \E how \in {"static", "module"} : CalcReceiveFilter(how)
-Next == DoConstruct \/ DoSetMetric \/ EditDict \/ DoNewChannel \/ DoSolveBD \/ SolveExt \/ CalcWhitening \/ DoCalcReceiveFilter \/ Scribble
+Next == DoConstruct \/ DoSetAttr \/ DoSetMetric \/ EditDict \/ DoNewChannel \/ DoSolveBD \/ SolveExt \/ CalcWhitening \/ DoCalcReceiveFilter \/ Scribble
 Spec == Init /\ [][Next]_vars
 
 (* ---------------------------------- what the property requires --------------------------------- *)
 \* the predicates of the property that must hold for what was last computed (evaluated numerically, (rel))
 ReqOf(o, l) ==
   IF l.op = "none" THEN {}
-  ELSE IF l.op = "whiten" THEN {"WhiteningFiltersWhitenExtIntPlusNoise", "InputsUntouched"}
+  ELSE IF l.op = "whiten" THEN {"WhiteningFiltersWhitenExtIntPlusNoise", "InputsUntouched", "EarlierResultsUnchanged"}
   ELSE IF l.op \in BDops THEN
          {"EffectiveChannelBlockDiagonal", "ReturnedChannelIsChannelTimesPrecoder", "PowerLePerUser", "SameAsFreshObject", "InputsUntouched",
-          "EffectiveStreamsOrthogonal"}      \* (beyond the statement: the streams of a user are the eigenmodes of its channel)
+          "EarlierResultsUnchanged", "EffectiveStreamsOrthogonal"}      \* (beyond the statement: the streams of a user are the eigenmodes of its channel)
          \* with water-filling: at most the power per user, reached by one; the powered streams share one water level
          \* for the total power K * p (the interplay of the global water-filling with the normalisation; the allocation
          \* rule itself is C12's)
          \cup (IF l.op = "bd_nowf" THEN {"PowerEqPerUser"} ELSE {"PowerReachedByOne", "WaterLevelCommonOnPoweredStreams"})
          \cup (IF l.filt THEN {"ReceiveFilterInvertsOnPoweredStreams"} ELSE {})
   ELSE {"InterUserNullWithExtInt", "PowerEqPerUser", "StreamCountsMatchPrecoders", "ReceiveFilterInvertsOnPoweredStreams",
-        "SameAsFreshObject", "InputsUntouched"}
+        "SameAsFreshObject", "InputsUntouched", "EarlierResultsUnchanged"}
        \cup (CASE l.kind = "all"   -> {"AllStreamsKept"}
                [] l.kind = "fixed" -> {"StreamCountIsNumStreams"}
                [] OTHER            -> {"StreamCountInRange"})
        \* interference-aware reductions (fixed and the deciding metrics; "naive" drops streams blindly) remove the
        \* external interference at every user that keeps at most N - rE streams
-       \cup (IF /\ o.pe \notin {"zero", "na"}
+       \cup (IF /\ l.pe \notin {"zero", "na"}
                 /\ l.mname \in {"fixed", "capacity", "effective_throughput"}
                 /\ l.N - l.rE >= 1
                 /\ l.kind = "fixed" => l.n <= l.N - l.rE
@@ -263,7 +289,7 @@ Required == ReqOf(obj, last)
 (* ---------------------------------- laws of the machine ----------------------------------------- *)
 ArgRecs == [ns : 0..3, mod : {"none"} \cup Mods, plen : {0} \cup PLens]
 TypeOK ==
-  /\ obj = NoObj \/ obj \in Configs
+  /\ obj = NoObj \/ [cls |-> obj.cls, K |-> obj.K, p |-> obj.p, nv |-> obj.nv, pe |-> obj.pe] \in Configs
   /\ metric \in [name : MetricNames, ns : 0..3, mod : {"none"} \cup Mods, plen : {0} \cup PLens]
   /\ alias \in BOOLEAN
   /\ chan \in [N : {0} \cup Ants, rE : {0} \cup Ranks, intact : BOOLEAN]
@@ -277,6 +303,8 @@ MetricArgsConsistent ==
   /\ metric.name = "effective_throughput" => metric.ns = 0 /\ metric.mod \in Mods /\ metric.plen \in PLens
 
 ChannelIntact == chan.intact
+\* every result was computed with the attribute values current at the time of the call
+ResultObeysCurrentAttributes == last.cur
 NoSharedDict == ~alias
 
 PowerRules == {"PowerEqPerUser", "PowerReachedByOne"}
@@ -297,6 +325,8 @@ SolveUsesCurrentMetric ==
   [][ret'.op = "SolveExt" =>
        /\ last'.N = chan.N /\ last'.rE = chan.rE
        /\ last' = ExtResult(obj, metric, chan)]_vars
+OnlySettersChangeObject == [][obj' # obj => ret'.op \in {"Construct", "SetAttr"}]_vars
+SetAttrChangesOnlyThat == [][ret'.op = "SetAttr" => (UNCHANGED <<metric, alias, chan, last>> /\ obj'.cls = obj.cls /\ obj'.K = obj.K)]_vars
 SolveLeavesConfig == [][ret'.op \in {"SolveExt", "SolveBD", "CalcReceiveFilter", "CalcWhitening"} => UNCHANGED <<obj, metric, alias, chan>>]_vars
 
 (* ---------------------------------- emission ------------------------------------------------------ *)
@@ -305,8 +335,14 @@ StateRecP == [obj |-> obj', metric |-> metric', alias |-> alias', chan |-> chan'
 \* what a solve in the post-state would have to satisfy (the harness probes it on a copy of the object after the
 \* steps that must not change the object: rejected calls, EditDict, Scribble, and after accepted metric changes)
 ProbeOf(o, m, c) == IF ExtEnabled(o, m, c)
-                      THEN [ok |-> TRUE, last |-> ExtResult(o, m, c), req |-> ReqOf(o, ExtResult(o, m, c))]
+                      THEN [ok |-> TRUE, last |-> ExtResult(o, m, c), req |-> ReqOf(o, ExtResult(o, m, c)), cfg |-> CfgVals(o)]
                       ELSE [ok |-> FALSE]
+\* frame conditions of the call just made (general call discipline; the harness checks them with the probe, the held
+\* earlier results and the argument copies)
+FrameOf(r) == {"ArgumentsUnchanged", "EarlierResultsUnchanged"}
+              \cup (IF r.out = "rejected" THEN {"RejectedChangesNothing"} ELSE {})
+              \cup (IF r.op \in {"CalcWhitening", "CalcReceiveFilter"} THEN {"QueryIsPure"} ELSE {})
+              \cup (IF r.op = "SetAttr" THEN {"LaterSolvesObeyCurrentAttributes"} ELSE {})
 Emit == EmitEdge([pre |-> StateRec, post |-> StateRecP, ret |-> ret', req |-> ReqOf(obj', last'),
-                  probe |-> ProbeOf(obj', metric', chan')])
+                  probe |-> ProbeOf(obj', metric', chan'), frame |-> FrameOf(ret')])
 =============================================================================
